@@ -23,6 +23,8 @@ pub enum Init {
     Standalone(PModel),
     /// Paragraph::from_str(text): handle to the first paragraph of its own parsed tree
     ParaFromStr(String),
+    /// Deb822::new()
+    New,
 }
 
 #[derive(Clone, Serialize, Deserialize, PartialEq, Debug)]
@@ -88,6 +90,7 @@ impl Live {
                 };
                 Some((Live { doc: None, solo: Some(para) }, vec![p.clone()]))
             }
+            Init::New => Some((Live { doc: Some(Deb822::new()), solo: None }, vec![])),
             Init::ParaFromStr(t) => {
                 let p = Paragraph::from_str(t).ok()?;
                 // the handle still belongs to the document it was parsed from
@@ -205,7 +208,7 @@ pub fn model_apply(m: &mut DModel, op: &Op) {
 }
 
 /// Apply an operation to the live object.  `early` handles are used for field edits when given.
-pub fn live_apply(l: &mut Live, early: Option<&mut Vec<Paragraph>>, op: &Op) -> Result<(), String> {
+pub fn live_apply(l: &mut Live, early: Option<&mut Vec<Paragraph>>, op: &Op) -> Result<Option<bool>, String> {
     let mut handle = |l: &Live, p: usize| -> Result<Paragraph, String> {
         match &early {
             Some(e) => e.get(p).and_then(|h| <Paragraph as AstNode>::cast(h.syntax().clone())).ok_or("no such early handle".to_string()),
@@ -217,7 +220,7 @@ pub fn live_apply(l: &mut Live, early: Option<&mut Vec<Paragraph>>, op: &Op) -> 
         Op::Insert(p, k, v) => handle(l, *p)?.insert(k, v),
         Op::Remove(p, k) => handle(l, *p)?.remove(k),
         Op::Rename(p, k, k2) => {
-            handle(l, *p)?.rename(k, k2);
+            return Ok(Some(handle(l, *p)?.rename(k, k2)));
         }
         Op::AddPara => {
             l.doc.as_mut().ok_or("no document")?.add_paragraph();
@@ -237,7 +240,7 @@ pub fn live_apply(l: &mut Live, early: Option<&mut Vec<Paragraph>>, op: &Op) -> 
             l.doc.as_mut().ok_or("no document")?.remove_paragraph(*i);
         }
     }
-    Ok(())
+    Ok(None)
 }
 
 // ---------------------------------------------------------------------------------------------
@@ -318,13 +321,36 @@ pub fn check_edit(c: &EditCase, st: &mut Stats, pid: &str) -> Vec<Viol> {
             return Err("initial state not constructible".into());
         };
         let mut early: Vec<Paragraph> = (0..model.len()).filter_map(|i| live.para(i)).collect();
+        // which model paragraph each early handle stands for (paragraph-level operations shift or drop them)
+        let mut early_map: Vec<Option<usize>> = if early.len() == model.len() { (0..early.len()).map(Some).collect() } else { vec![] };
+        let remap = |map: &mut Vec<Option<usize>>, op: &Op, len_before: usize| match op {
+            Op::InsertPara(i) | Op::InsertParaSet(i, ..) => {
+                let at = (*i).min(len_before);
+                for m in map.iter_mut().flatten() {
+                    if *m >= at {
+                        *m += 1;
+                    }
+                }
+            }
+            Op::RemovePara(i) if *i < len_before => {
+                for m in map.iter_mut() {
+                    match *m {
+                        Some(j) if j == *i => *m = None,
+                        Some(j) if j > *i => *m = Some(j - 1),
+                        _ => {}
+                    }
+                }
+            }
+            _ => {}
+        };
         let n = c.ops.len();
         if n == 0 {
-            let out = check_state(&live, &model, &early, c.early);
+            let out = check_state(&live, &model, &early, &early_map);
             return Ok((out, Some(key_of(&live, &model, &early, c.early))));
         }
         for op in &c.ops[..n - 1] {
             live_apply(&mut live, if c.early { Some(&mut early) } else { None }, op)?;
+            remap(&mut early_map, op, model.len());
             model_apply(&mut model, op);
         }
         let before = live.text();
@@ -334,10 +360,23 @@ pub fn check_edit(c: &EditCase, st: &mut Stats, pid: &str) -> Vec<Viol> {
             Op::RemovePara(i) => live.para(*i).map(|p| p.to_string()),
             _ => None,
         };
-        live_apply(&mut live, if c.early { Some(&mut early) } else { None }, op)?;
+        let returned = live_apply(&mut live, if c.early { Some(&mut early) } else { None }, op)?;
+        remap(&mut early_map, op, model.len());
         model_apply(&mut model, op);
         let after = live.text();
-        let mut out = check_state(&live, &model, &early, c.early);
+        // handles taken before the first operation see every later edit of their paragraph, whichever handle made it
+        let mut out = check_state(&live, &model, &early, &early_map);
+        if let (Some(r), Op::Rename(p, k, _)) = (returned, op) {
+            let had = model_before.get(*p).map_or(false, |pp| pp.iter().any(|(kk, _)| kk == k));
+            if r != had {
+                out.push(viol("rename-returns", format!("{:?} on {:?}: rename returned {}, the field {}", op, before, r, if had { "existed" } else { "did not exist" })));
+            }
+        }
+        if let Op::RemovePara(i) = op {
+            if *i >= model_before.len() && before != after {
+                out.push(viol("locality", format!("{:?}: removal beyond the end changed the text: before {:?} after {:?}", op, before, after)));
+            }
+        }
         out.extend(check_locality(&before, &after, &model_before, &model, op, removed_text.as_deref()));
         let _ = pid;
         Ok((out, Some(key_of(&live, &model, &early, c.early))))
@@ -373,19 +412,40 @@ fn key_of(live: &Live, model: &DModel, early: &[Paragraph], use_early: bool) -> 
     k
 }
 
-fn check_state(live: &Live, model: &DModel, early: &[Paragraph], use_early: bool) -> Vec<Viol> {
+fn check_state(live: &Live, model: &DModel, early: &[Paragraph], early_map: &[Option<usize>]) -> Vec<Viol> {
     let mut out = vec![];
     let text = live.text();
     let got = live.read();
     if got != *model {
         out.push(viol("list-model", format!("text {:?}: live object reports {:?}, model {:?}", text, got, model)));
     }
-    if use_early {
-        for (i, h) in early.iter().enumerate() {
-            if let Some(m) = model.get(i) {
-                let items: PModel = h.items().collect();
-                if items != *m {
-                    out.push(viol("early-handle-sees-edit", format!("text {:?}: early handle {} reports {:?}, model {:?}", text, i, items, m)));
+    for (i, h) in early.iter().enumerate() {
+        if let Some(m) = early_map.get(i).copied().flatten().and_then(|j| model.get(j)) {
+            let items: PModel = h.items().collect();
+            if items != *m {
+                out.push(viol("early-handle-sees-edit", format!("text {:?}: the handle taken to paragraph {} before the first operation reports {:?}, model {:?}", text, i, items, m)));
+            }
+        }
+    }
+    // the other readers of a paragraph agree with the model
+    if got == *model {
+        for (i, m) in model.iter().enumerate() {
+            let Some(h) = live.para(i) else { continue };
+            let keys: Vec<String> = h.keys().collect();
+            let want_keys: Vec<String> = m.iter().map(|(k, _)| k.clone()).collect();
+            if keys != want_keys {
+                out.push(viol("accessors-agree", format!("text {:?}: paragraph {} keys() {:?}, model {:?}", text, i, keys, want_keys)));
+            }
+            let mut probe: Vec<&str> = m.iter().map(|(k, _)| k.as_str()).collect();
+            probe.push("Zz-absent");
+            probe.dedup();
+            for k in probe {
+                let first = m.iter().find(|(kk, _)| kk == k).map(|(_, v)| v.clone());
+                let all: Vec<String> = m.iter().filter(|(kk, _)| kk == k).map(|(_, v)| v.clone()).collect();
+                let g = h.get(k);
+                let ga: Vec<String> = h.get_all(k).collect();
+                if g != first || ga != all || h.contains_key(k) != first.is_some() {
+                    out.push(viol("accessors-agree", format!("text {:?}: paragraph {} key {:?}: get {:?} get_all {:?} contains_key {}, model {:?}", text, i, k, g, ga, h.contains_key(k), all)));
                 }
             }
         }
